@@ -258,8 +258,16 @@ def continue_serving(m, sim, before, res, failures, label, then, max_rows=12500)
                 return
             log = list(m.log)
             ref = observe.ref_at(final, len(final) - 1, ACT)
-            for k in range(len(log) + 1):
+            for k, after in itertools.product(range(len(log) + 1), ('server', 'tool')):
                 m3 = world.Machine.from_snapshot(snap, log[:k])
+                if after == 'tool':
+                    # the first program to open the databases after the crash is the tool
+                    wc = open_compacting(m3, max_rows)
+                    try:
+                        if not wc.db.state.first_sync:
+                            tool_loop(wc, 8_000_000)
+                    finally:
+                        wc.close(destroy=False)
                 w3 = world.World(m3, reorg_limit=LIMITS['server'], activation=ACT)
                 try:
                     w3.daemon.set_chain(final)
@@ -270,7 +278,7 @@ def continue_serving(m, sim, before, res, failures, label, then, max_rows=12500)
                         for field, detail in observe.compare(obs, ref, ('hist',)):
                             failures.append((f'{label}:{then}:{field}', dict(
                                 detail if isinstance(detail, dict) else {}, crash_after_effect=k,
-                                effect=[str(x)[:40] for x in log[k - 1][:3]] if k else None)))
+                                opened_next_by=after, effect=[str(x)[:40] for x in log[k - 1][:3]] if k else None)))
                     except (world.SyncFailed, world.Stalled) as e:
                         failures.append((f'{label}:{then}:died-after-crash', dict(error=repr(e), crash_after_effect=k)))
                     except (world.ReaderBlocked, observe.ReadFailed, RuntimeError) as e:
